@@ -9,7 +9,7 @@ from vf.oracles import c10
 
 REWRITES = ['mnemonic-case', 'register-case', 'gap-mnemonic-operand', 'gap-around-comma', 'gap-inside-brackets',
             'gap-around-equals', 'blank-lines', 'full-line-comments', 'trailing-comments', 'label-placement',
-            'join-instructions', 'indentation']
+            'join-instructions', 'indentation', 'gap-in-directive']
 LABELS = ['main', 'loop_nop', 'ld_ptr', 'inr2x', 'x_jmp_tab', 'Data9', 'nib4', 'sel_', 'q4q', 'done']
 
 
@@ -45,6 +45,10 @@ def R(name):
 def gen_ast(rng):
     """list of items; operands are token lists, a token is a str or ('reg', name)"""
     items = [('org', rng.choice([0, 4, 32]))]
+    # preprocessor lines: the amount of whitespace between their tokens carries no meaning either
+    pp_mode = rng.choice(['turbo', 'slow', None])
+    if pp_mode:
+        items = [('pp', ['#define', 'MODE_X', pp_mode]), ('pp', ['#define', 'LIM_X', str(rng.choice([4, 5, 6]))])] + items
     labels = list(LABELS)
     rng.shuffle(labels)
     defined = []
@@ -71,6 +75,12 @@ def gen_ast(rng):
             continue
         if r < 0.26:
             items.append(('const', f'K_{i}', [str(rng.randrange(0, 200))]))
+            continue
+        if pp_mode and r < 0.29 and not pending_local:
+            cond_ = rng.choice([['#if', 'MODE_X', '==', 'turbo'], ['#if', 'MODE_X', '!=', 'turbo'], ['#if', 'LIM_X', '>=', '5'],
+                                ['#ifdef', 'MODE_X'], ['#ifndef', 'LIM_X'], ['#if', 'LIM_X', '<', '5']])
+            items += [('pp', cond_), ('data', '.byte', [[str(rng.randrange(1, 100))]]), ('pp', ['#else']),
+                      ('data', '.byte', [[str(rng.randrange(100, 200))], ['7']]), ('pp', ['#endif'])]
             continue
         if r < 0.31:
             # strings and character literals with quote characters, escapes and semicolons inside
@@ -197,6 +207,8 @@ def render(items, rng, kinds):
             return '.org' + ws('gap-mnemonic-operand', ' ') + str(it[1])
         if k == 'raw':
             return it[1]
+        if k == 'pp':
+            return ws('gap-in-directive', ' ').join(it[1]) if len(it[1]) > 1 else it[1][0]
         raise ValueError(k)
 
     lines = []
@@ -276,7 +288,7 @@ class C18(core.Check):
     chunk = 900
     required_buckets = {**{'alone:' + k: 3 for k in REWRITES}, 'all-together': 3, 'tab-after-mnemonic': 3,
                         'upper-register-in-brackets': 3, 'upper-register-indexed': 3, 'label-contains-mnemonic': 3,
-                        'joined>=2': 3, 'joined>=3': 3, 'label-in-front-of-local-reference': 3, 'corpus-example': 3, 'quote-in-comment-after-quoted-statement': 3}
+                        'joined>=2': 3, 'joined>=3': 3, 'label-in-front-of-local-reference': 3, 'corpus-example': 3, 'preprocessor-lines': 3, 'tab-after-directive-keyword': 3, 'quote-in-comment-after-quoted-statement': 3}
 
     def corpus_cases(self, tier, seed):
         import os
@@ -348,6 +360,9 @@ class C18(core.Check):
                 import re
                 if re.search(r'^\s*[A-Za-z][\w.]*\t', src, re.M) and 'gap-mnemonic-operand' in ks:
                     t.add('tab-after-mnemonic')
+                if 'gap-in-directive' in ks and re.search(r'^\s*#(define|if|ifdef|ifndef)\t', src, re.M):
+                    t.add('preprocessor-lines')
+                    t.add('tab-after-directive-keyword')
                 if re.search(r'\[\s*(SP|A|Sp)\b', src):
                     t.add('upper-register-in-brackets')
                 if re.search(r'(?i)\blix\s+(SP|Sp)', src) and re.search(r'\b(SP|Sp)\s*\+', src):
